@@ -277,6 +277,22 @@ def check_table(nvars, rows):
             v.append(("csv|%s-differs|%s" % ("row-count" if len(body) != len(expc) else "cell", wc), {"got": body, "expected": expc}))
     except Exception as e:  # noqa: BLE001
         v.append(("csv|raises|%s|%s" % (type(e).__name__, wc), {"exc": repr(e)[:300]}))
+    # CSV: rdflib writer -> rdflib reader: the row sequence and the string value of every bound term survive (CSV does not carry term kinds;
+    # an empty string and an unbound cell are both an empty field)
+    try:
+        data = build_result(nvars, rows).serialize(format="csv")
+        back = Result.parse(io.BytesIO(data), format="csv")
+        got = [[("" if b.get(var) is None else str.__str__(b.get(var))) for var in back.vars] for b in back.bindings]
+        expc = [[("" if mk(d) is None else ("_:%s" % mk(d) if isinstance(mk(d), BNode) else str.__str__(mk(d)))) for d in row] for row in rows]
+        if [str(x) for x in back.vars] != exp_vars:
+            v.append(("csv-reader|vars-differ", {"got": [str(x) for x in back.vars]}))
+        else:
+            g2 = [r for r in got if any(r)]
+            e2 = [r for r in expc if any(r)]
+            if g2 != e2:
+                v.append(("csv-reader|%s-differs|%s" % ("row-count" if len(g2) != len(e2) else "cell", wc), {"got": g2, "expected": e2, "csv": data.decode("utf-8")[:300]}))
+    except Exception as e:  # noqa: BLE001
+        v.append(("csv-reader|raises|%s|%s" % (type(e).__name__, wc), {"exc": repr(e)[:300]}))
     return v
 
 
@@ -339,7 +355,7 @@ def run(ctx):
     ctx.cov["exhaustive"] = True
     ctx.cov["rule"] = ("Tables: 1x1 over the cell alphabet K, 1 var x 2 rows (K^2), 2 vars x 1 row (K^2), 2x2 over a 12-cell sub-alphabet (12^4), empty "
                        "tables, all-unbound row, trailing unbound column, both ASK values; each through JSON, XML (round trip), TSV (4 spellings of an "
-                       "independent writer -> rdflib reader) and CSV (rdflib writer -> stdlib csv); every table of <=2 cells also as the lazily evaluated result of a VALUES query, serialised twice and once more after iteration. Non-trivial: a cell needs escaping, is falsy, "
+                       "independent writer -> rdflib reader) and CSV (rdflib writer -> stdlib csv, and rdflib writer -> rdflib reader compared by string values); every table of <=2 cells also as the lazily evaluated result of a VALUES query, serialised twice and once more after iteration. Non-trivial: a cell needs escaping, is falsy, "
                        "non-BMP, a blank node or unbound.")
     ctx.sample({"table": [2, [[["L", "a\tb", None, None], None], [["B", "b1", None, None], ["L", "", None, "en"]]]]})
     ctx.assumptions += ["for TSV only rows binding at least one variable are compared (an all-unbound row is an empty line)",
